@@ -49,11 +49,13 @@ def C04_assignment_conforms_stmt : Prop :=
     encodeSyncGroupMemberAssignment ver asg ud = .ok data → Monitor.C04.assignment ver asg ud data ≠ .fail
 
 /-- grouping by topic keeps every payload exactly once and in the caller's relative order:
-    with non-null topics and distinct (topic, partition) keys the grouped structure is the
-    independent `regroup` (topics by first occurrence, payloads of a topic in the order given). -/
+    with non-null topics, whenever the encoders' guard passes (the grouped structure holds as many
+    payloads as were given, `_group_payloads`) the grouped structure is the independent `regroup`
+    (topics by first occurrence, payloads of a topic in the order given). -/
 def C04_order_preserved_stmt : Prop :=
   ∀ {α : Type} (topic : α → Option Bytes) (partition : α → Int) (xs : List α) (l : List (Bytes × (Int × α))),
     keyed topic partition (fun x => some x) xs = some l →
+    payloadCount (groupByTopicPartition topic partition xs) = xs.length →
     groupByTopicPartition topic partition xs = (regroup l).map (fun e => (some e.1, e.2))
 
 /-- every message the encoder emits carries the checksum of exactly the bytes after the checksum
